@@ -176,6 +176,13 @@ func (w *fakeRW) Flush() {
 	w.flushes++
 }
 
+// finish models the handler returning: net/http commits a 200 response if nothing was written.
+func (w *fakeRW) finish() {
+	if !w.committed {
+		w.commit(200)
+	}
+}
+
 // trailer returns the client-visible value of a trailer key at handler return.
 func (w *fakeRW) trailer(key string) ([]string, bool) {
 	for _, a := range w.announced {
